@@ -78,13 +78,19 @@ class ObservedLogic(rl.ReconnectLogic):
 
     @_tries.setter
     def _tries(self, v):
-        if v == 0 and sys._getframe(1).f_code.co_name == "start" and self.acts is not None:
+        caller = sys._getframe(1).f_code.co_name
+        if v == 0 and caller == "start" and self.acts is not None:
             self.acts.append("reset_tries")
+        if caller == "_handle_connection_failure" and self.acts is not None:
+            self.acts.append("fail_counted:" + ("auth" if v == rl.MAXIMUM_BACKOFF_TRIES else "other"))
         self.__dict__["_t"] = v
 
 
 class Bench:
-    def __init__(self, has_name=True):
+    def __init__(self, has_name=True, susp=(False, False, False)):
+        self.susp = susp          # which user callbacks await something: (on_connect, on_connect_error, on_disconnect)
+        self.cb_futs = []
+        self.cb_all = []          # every future a callback ever awaited (to tell 'inside a callback' from 'inside a client call')
         self.net = simnet.Net(base=1000.0)
         self.loop = self.net.loop
         self.net.auto_resolve = True
@@ -99,15 +105,25 @@ class Bench:
         rl.create_eager_task = self._eager(rl.create_eager_task)
         aclient.create_eager_task = self._eager(aclient.create_eager_task)
 
+        async def maybe_suspend(i):
+            if self.susp[i]:
+                f = self.loop.create_future()
+                self.cb_futs.append(f)
+                self.cb_all.append(f)
+                await f
+
         async def on_connect():
             self.acts.append("on_connect")
+            await maybe_suspend(0)
 
         async def on_disconnect(expected):
             self.acts.append(f"on_disconnect:{int(bool(expected))}")
+            await maybe_suspend(2)
 
         async def on_connect_error(err):
             self.acts.append("on_connect_error:" + ("auth" if isinstance(err, rl.AUTH_EXCEPTIONS) else "other"))
             self.errors.append(type(err).__name__)
+            await maybe_suspend(1)
 
         self.errors = []
         self.mgr = ObservedLogic(client=self.client, on_connect=on_connect, on_disconnect=on_disconnect,
@@ -124,7 +140,7 @@ class Bench:
 
         self.loop.call_at = call_at
         self.fin_delivered = False
-        self.lines = [f"rc.new {int(has_name)}"]
+        self.lines = [f"rc.new {int(has_name)} {int(susp[0])} {int(susp[1])} {int(susp[2])}"]
         self.obs = ["ok"]
         self.trace = []   # (op, acts, snapshot) for the oracle
 
@@ -206,7 +222,9 @@ class Bench:
         conn = self.client._connection
         cli = "idle" if conn is None else ("live" if conn.is_connected else "busy")
         alive = self.alive_tasks()
-        inflight = sum(1 for t in alive if self.kind_of_task(t) == "connect" and t._fut_waiter not in waiters)
+        # inside a client call: a connect task that waits neither for the lock nor inside a user callback
+        inflight = sum(1 for t in alive if self.kind_of_task(t) == "connect" and t._fut_waiter not in waiters
+                       and t._fut_waiter not in self.cb_all)
         ready = sum(1 for h in loop._ready if not h._cancelled and self.kind_of_handle(h))
         return (f"st={m._connection_state.name} acc={int(m._accept_zeroconf_records)} stopped={int(m._is_stopped)} "
                 f"zc={int(m._zc_listening)} tries={m._tries} timer={timer} locked={int(lock.locked())} waiters={len(waiters)} "
@@ -291,6 +309,12 @@ class Bench:
             if not armed or loop._vt + dt <= th._when + 1e-9:
                 loop._vt += dt
             self.emit(f"wait {dt}")
+        elif op == "cb_done":
+            # the user callback some task is suspended in returns (oldest first; a cancelled one is skipped)
+            self.cb_futs[:] = [f for f in self.cb_futs if not f.done()]
+            if self.cb_futs:
+                self.cb_futs.pop(0).set_result(None)
+            self.emit("cbDone")
         elif op == "pop":
             head = self.pop()
             self.emit("pop", head)
@@ -305,7 +329,23 @@ class Bench:
 
 
 OPS = ["start", "stop", "sock:ok", "sock:fail", "fin:ok", "fin:auth", "fin:reset", "end:reset", "end:dev",
-       "zc:ptr", "zc:a", "zc:ptr_other", "zc:a_other", "zc:txt", "timer", "wait:1", "wait:3", "pop", "settle"]
+       "zc:ptr", "zc:a", "zc:ptr_other", "zc:a_other", "zc:txt", "timer", "wait:1", "wait:3", "pop", "settle", "cb_done"]
+
+# histories for user callbacks that await something: the task sits in the callback, holding the lock, until cb_done
+CB = ["cb_done", "settle"]
+SUSP_SKELETONS = {
+    "s-happy": ["start", "settle", "sock:ok", "settle", "fin:ok", "settle"] + CB + ["end:reset", "settle"] + CB + ["sock:ok", "settle",
+                "fin:ok", "settle"] + CB + ["end:dev", "settle"] + CB + ["timer", "settle", "sock:ok", "settle", "fin:ok", "settle"] + CB +
+               ["stop", "settle"],
+    "s-fail": ["start", "settle", "sock:fail", "settle"] + CB + ["timer", "settle", "sock:ok", "settle", "fin:auth", "settle"] + CB +
+              ["zc:ptr", "settle", "sock:ok", "settle", "fin:ok", "settle"] + CB + ["stop", "settle"],
+    "s-stop-in-cb": ["start", "settle", "sock:fail", "settle", "stop", "settle", "cb_done", "settle", "start", "settle", "sock:ok",
+                     "settle", "fin:ok", "settle", "stop", "end:reset", "settle", "cb_done", "settle", "cb_done", "settle"],
+    "s-end-in-on-connect": ["start", "settle", "sock:ok", "settle", "fin:ok", "settle", "end:reset", "settle", "zc:ptr", "timer",
+                            "cb_done", "settle", "cb_done", "settle", "sock:ok", "settle", "fin:ok", "settle"] + CB,
+    "s-zc-in-error-cb": ["start", "settle", "sock:fail", "settle", "zc:ptr", "settle", "start", "cb_done", "settle", "zc:a", "settle",
+                         "sock:ok", "settle", "fin:reset", "settle", "zc:ptr", "cb_done", "settle", "timer", "settle"],
+}
 
 SKELETONS = {
     "happy": ["start", "settle", "sock:ok", "settle", "fin:ok", "settle", "end:reset", "settle", "sock:ok", "settle", "fin:ok",
@@ -327,8 +367,9 @@ SKELETONS = {
 class Oracle:
     """the property's clauses on the implementation's own trace"""
 
-    def __init__(self):
+    def __init__(self, susp=(False, False, False)):
         self.problems = []
+        self.susp = susp
 
     def judge(self, trace):
         fails, last_cb, cb_seq = 0, None, []
@@ -360,7 +401,7 @@ class Oracle:
                 elif a.startswith("on_disconnect"):
                     cb_seq.append("d")
                     # unexpected -> immediately (no timer), expected -> 5 s, unless stopped
-                    if f["stopped"] == "0":
+                    if f["stopped"] == "0" and not self.susp[2]:   # (when on_disconnect awaits, the rescheduling comes after it)
                         rest = acts[j + 1:]
                         if a.endswith(":1") and "arm:5" not in rest:
                             self.problems.append(("c18:cooldown", i, f"expected disconnect not followed by a 5 s cool-down: {rest}"))
@@ -368,6 +409,8 @@ class Oracle:
                             self.problems.append(("c18:no-immediate-retry", i, f"unexpected disconnect not followed by an immediate attempt: {rest}"))
                 elif a.startswith("on_connect_error"):
                     outcomes += 1
+                elif a.startswith("fail_counted"):
+                    # the failure is counted when on_connect_error has returned; the retry timer follows at once
                     fails = 100 if a.endswith("auth") else fails + 1
                     want = min(round(1.8 ** min(fails, 10)), 60) if fails < 100 else 60
                     arms = [x for x in acts[j + 1:] if x.startswith("arm:")]
@@ -408,13 +451,17 @@ class Oracle:
         return self.problems
 
 
-def run_one(ops, has_name=True):
-    b = Bench(has_name)
+def run_one(ops, has_name=True, susp=(False, False, False)):
+    b = Bench(has_name, susp)
     try:
         for o in ops:
             b.op(o)
         # quiesce: everything pending is run so that "each attempt has exactly one outcome" can be judged
         b.op("settle")
+        for _ in range(4):
+            if any(not f.done() for f in b.cb_futs):
+                b.op("cb_done")
+                b.op("settle")
         return b.lines, b.obs, b.trace, list(b.errors)
     finally:
         b.close()
@@ -436,12 +483,27 @@ def scenarios(rng, thorough):
                     if rng.random() < 0.3:
                         out.append((f"{name}+{o1},{o2}@{pos}", sk[:pos] + [o1, o2] + sk[pos:], True))
     out.append(("noname", list(SKELETONS["zc-retry"]), False))
+    NOS = (False, False, False)
+    out = [(n, o, h, NOS) for n, o, h in out]
+    # user callbacks that await something: all three suspend, or one of them
+    ALL = (True, True, True)
+    for name, sk in SUSP_SKELETONS.items():
+        out.append((name, list(sk), True, ALL))
+        for pos in range(len(sk) + 1):
+            for o in OPS:
+                if thorough or rng.random() < 0.3:
+                    out.append((f"{name}+{o}@{pos}", sk[:pos] + [o] + sk[pos:], True, ALL))
+    for name, sk in SKELETONS.items():
+        for susp in ((True, False, False), (False, True, False), (False, False, True)):
+            out.append((f"{name}/susp{susp}", [x for o in sk for x in ([o] if o != "settle" else ["settle", "cb_done", "settle"])], True, susp))
     weights = {"pop": 5, "settle": 3, "start": 2, "stop": 2, "sock:ok": 3, "sock:fail": 2, "fin:ok": 3, "timer": 3, "zc:ptr": 2,
                "end:reset": 2, "end:dev": 1}
     bag = [o for o in OPS for _ in range(weights.get(o, 1))]
     for i in range(3000 if thorough else 400):
         n = rng.randrange(4, 40)
-        out.append((f"random{i}", ["start"] + [rng.choice(bag) for _ in range(n)], rng.random() < 0.9))
+        susp = NOS if rng.random() < 0.5 else tuple(rng.random() < 0.6 for _ in range(3))
+        wbag = bag + (["cb_done"] * 6 if any(susp) else [])
+        out.append((f"random{i}", ["start"] + [rng.choice(wbag) for _ in range(n)], rng.random() < 0.9, susp))
     return out
 
 
@@ -457,9 +519,10 @@ def run(ck: Check):
     batches, metas = [], []
     dist = {"scenarios": len(scen), "ops": 0}
     seen = set()
-    for name, ops, has_name in scen:
-        lines, obs, trace, errors = run_one(ops, has_name)
+    for name, ops, has_name, susp in scen:
+        lines, obs, trace, errors = run_one(ops, has_name, susp)
         batches.append((lines, obs, name, ops, has_name))
+        dist["suspending"] = dist.get("suspending", 0) + (1 if any(susp) else 0)
         dist["ops"] += len(trace)
         for ev, acts, snap in trace:
             for a in acts:
@@ -468,8 +531,9 @@ def run(ck: Check):
             seen.add((f["st"], f["stopped"], f["cli"], f["locked"], f["waiters"], f["timer"] != "-", f["zc"]))
         for e in errors:
             dist["err:" + e] = dist.get("err:" + e, 0) + 1
-        for key, i, what in Oracle().judge(trace)[:3]:
-            ck.violation(key, f"scenario {name} (ops {ops[:60]}), at op #{i}: {what}", {"ops": ops, "has_name": has_name, "at": i})
+        for key, i, what in Oracle(susp).judge(trace)[:3]:
+            ck.violation(key, f"scenario {name} (ops {ops[:60]}, callbacks suspend {susp}), at op #{i}: {what}",
+                         {"ops": ops, "has_name": has_name, "callbacks_suspend": list(susp), "at": i})
     # ---- backoff table, measured on the model for every n (the implementation's timers were judged by the oracle above)
     tbl = [f"rc.backoff {n}" for n in range(0, 130)]
     # ---- model vs implementation
@@ -505,11 +569,12 @@ def run(ck: Check):
                 "device disconnect / 5 kinds of mDNS record / timer due / wait / run ONE ready handle / settle, name known or not); "
                 "distinct = (state, stopped, client phase, lock, waiters, timer armed, listening) combinations reached",
         "traces_validated_against_impl": len(scen),
-        "samples": [{"scenario": scen[i][0], "ops": scen[i][1][:30]} for i in (0, len(scen) // 2, len(scen) - 1)],
+        "samples": [{"scenario": scen[i][0], "ops": scen[i][1][:30], "callbacks_suspend": list(scen[i][3])} for i in (0, len(scen) // 2, len(scen) - 1)],
         "distribution": dist, "exhaustive": False,
     })
     ck.assumptions += [
-        "user callbacks (on_connect, on_disconnect, on_connect_error) return without suspending",
+        "a user callback that awaits something awaits ONE future the scenario resolves (cb_done); per scenario each of the three "
+        "callbacks either always suspends or never does",
         "the attempt's own timeouts (resolve/connect/handshake, C05-C09) never fire: attempt outcomes are chosen by the scenario",
         "stop_callback() (a wrapper that spawns stop()) and zeroconf instances created by the manager itself (closed in stop(), C20) are not driven",
     ]
